@@ -237,7 +237,8 @@ func (w *MarkdownWriter) writeNormalParagraph(para *document.Paragraph) error {
 	w.closeList()
 	text := strings.TrimSpace(w.extractParagraphText(para))
 	if text == "" {
-		w.output.WriteString("\n")
+		// 没有可见文本的段落不输出任何内容：块之间本来就以空行分隔，
+		// 多出的空行在Markdown中没有意义，重新导入后也不会保留
 		return nil
 	}
 
